@@ -164,9 +164,10 @@ def run_check(pid, tier, seed, args, t0):
             try:
                 bounded = bmod.run(tier, seed)
             except Exception:
-                # the harness itself crashed on this tree: report it as a (bounded) failure with the traceback
-                bounded = {'evaluations': 0, 'failures': [{'contract': 'bounded harness', 'function': 'bounded.' + pid, 'key': 'harness-crash',
-                                                           'what': 'bounded harness raised: ' + traceback.format_exc()[-800:], 'clause': ''}]}
+                # the harness itself crashed: a checker error (exit 3), never a violation
+                harness_crash = traceback.format_exc()[-1500:]
+                bounded = {'evaluations': 0, 'failures': [], 'harness_crash': harness_crash}
+                print("CHECKER-ERROR property=%s bounded harness crashed:\n%s" % (pid, harness_crash))
             bounded['ran'] = True
             bounded['wall_s'] = round(time.time() - tb, 2)
             for k, case in enumerate(bounded.get('failures', [])[:20]):
@@ -206,6 +207,8 @@ def run_check(pid, tier, seed, args, t0):
         print("  obligation: %s :: %s" % (v.get('function'), v.get('obligation')))
         print("  clause: %s" % (v.get('clause', '')[:300]))
         code = 1
+    if code == 0 and bounded.get('harness_crash'):
+        code = 3
     if code == 0 and downgraded and not bounded.get('ran'):
         code = 2
     if code == 0 and n_obl == 0:
